@@ -411,6 +411,8 @@ var ambImportUses = []string{"m::f", "f", "$d", "$d::d", "$x", "g", "m::onlyA", 
 
 var ambWraps = []string{"%s", "%s", "%s", "[%s]", "try (%s) catch .", "(%s)?", "first(%s)", "[limit(5; %s)]", "{a: (%s)}", "(%s) as $x | [$x]", "[.[]? | (%s)]", "(%s) | tojson", "(%s) | type", "[(%s), 1]", "(%s) // \"alt\"", "def w: %s; w", "path(%s)?", "if (%s) then 1 else 2 end", "\"s\\(%s)\"", "label $z | (%s)"}
 
+var ambWide bool
+
 var ambInputs = []any{
 	nil, true, false, 0, 1, -1, 2, 3, 10, 1.5, -0.5, 2.5, 3.7, 8, 255, 1425599507, 1425599507.789, 1e12, 1e300, -1e300, 1e-7,
 	"", "a", "ab", "abc", "AbC", "a,b, c", "2015-03-05T23:51:47Z", "2015-03-05T23:51:47+0900", "10:20", "[1,{\"a\":2}]", "YWJj", "MFRGG===", "a b&c=é", "<&>'\"", "  x  ", "😀é", "1", "1e3", "nan", "HOME", "m", "./m",
@@ -497,6 +499,13 @@ var controlQueries = []struct{ q, what string }{
 }
 
 func runAmbient(t *testing.T) {
+	if !ambWide {
+		// wide objects: a consumer that walked a Go map unsorted would answer
+		// differently from process to process
+		ambInputs = append(ambInputs, wideAmbientInputs()...)
+		ambInputs = append(ambInputs, wideAmbientInputs()...)
+		ambWide = true
+	}
 	bl, err := builtinList()
 	if err != nil {
 		t.Fatalf("builtins: %v", err)
